@@ -214,6 +214,12 @@ func genCases(c *core.Ctx, emit func(ccase)) {
 		}
 	}
 
+	// E3. character-reference disguises (rendered.go): references to the bytes a CSS scanner acts on, inside the
+	// shapes each sanitiser accepts - the sanitiser sees the literal characters, the browser decodes the attribute first
+	for _, k := range refCases(c) {
+		emit(k)
+	}
+
 	// F. random values: alphabet-weighted bytes, and mutations of accepted values
 	nRand := c.N(60000, 1500000)
 	r := c.Rng
@@ -329,16 +335,17 @@ type result struct {
 }
 
 func Run(c *core.Ctx) {
-	c.Rule = "safehtml.SanitizeCSS on (property class x value): every value over the 21-symbol CSS-adversarial alphabet up to the tier's length per sanitiser class, url(...)/quoted-name shapes with an exhaustive inside, white-space-rune wrappers, every alphabet/extra symbol spliced at every position of accepted values, scheme variants inside url(), hand-written vectors x property-name variants, comma-separated lists of valid/invalid/bare items in every order up to three items, random; distinct non-trivial = distinct (sanitiser class, value) with a structural byte (one of ; { } ( ) quote backslash / * < ,) in the value; the same cases, sampled, through templ.SanitizeCSS[T] for five value types, a rendered <style> element, runtime.SanitizeStyleAttributeValues in every value form, and sequences of style-attribute renders in which one is abandoned by a recovered panic (sequential on one P and concurrent)"
+	c.Rule = "safehtml.SanitizeCSS on (property class x value): every value over the 21-symbol CSS-adversarial alphabet up to the tier's length per sanitiser class, url(...)/quoted-name shapes with an exhaustive inside, white-space-rune wrappers, every alphabet/extra symbol spliced at every position of accepted values, scheme variants inside url(), hand-written vectors x property-name variants, comma-separated lists of valid/invalid/bare items in every order up to three items, random; distinct non-trivial = distinct (sanitiser class, value) with a structural byte (one of ; { } ( ) quote backslash / * < ,) in the value; the same cases, sampled, through templ.SanitizeCSS[T] for five value types, a rendered <style> element, runtime.SanitizeStyleAttributeValues in every value form, and sequences of style-attribute renders in which one is abandoned by a recovered panic (sequential on one P and concurrent); character-reference disguises (references of every form - named, decimal, hexadecimal, unterminated, double-escaped, near misses - to quotes, ';', ':', brackets, braces, backslash, '<', exhaustively to the tier's length and as break-out texts inside quoted names and url() bodies) through every layer; RENDERED DOCUMENTS written by compiled generated code: style attributes in seven template forms judged after tokenizing and attribute decoding, and css components for every expression shape (identifier, literals, concatenations that begin and end with quotes, raw strings, parenthesised, calls, conversions, index/field/closure forms) x property class x layout judged on the <style> element the compiled class function wrote"
 	c.Trusted = append(c.Trusted,
 		"specification spec/CssScan.v (CSS Syntax 3 scanner: confined, urls_of, decl_list) and spec/Whatwg.v (browser scheme extraction)",
+		"specification spec/CssSink.v (what the browser's CSS parser receives: spec/HtmlTok.v tokenizer, spec/HtmlRefs.v + spec/HtmlEntities.v attribute decoding with the standard's 2231 names, style-sheet rule scanner)",
 		"extraction: ExtrOcamlBasic only; ocaml/driver.ml (hex line protocol)",
-		"Go harness internal/c05, Go's html.UnescapeString as the browser's attribute-value decoding, the Go toolchain",
+		"Go harness internal/c05 (its evaluation of the probe templates' Go expressions, the scratch module it compiles), the Go toolchain",
 		"thorough tier: node's WHATWG URL parser as an independent oracle for the scheme of every URL in an accepted background-image value")
 	c.Assume = append(c.Assume,
 		"url.Parse contract (Section hypothesis of the theorems): when it returns no error the part of its argument before the first # has no byte < 0x20 or 0x7f and URL.Scheme is go_scheme(argument); checked against the real net/url on every URL body met and on random strings",
 		"strings are byte strings; strings.TrimSpace strips exactly the runes of model space_runes (checked against unicode.IsSpace over all runes)",
-		"a browser tokenises a declaration value per CSS Syntax Level 3 and extracts URL schemes per WHATWG URL (spec files above); the <style> text / attribute value it sees is the emitted text (style attribute: after one round of character-reference decoding)")
+		"a browser tokenises a declaration value per CSS Syntax Level 3 and extracts URL schemes per WHATWG URL (spec files above); the <style> text it sees is the element's text as tokenized (RAWTEXT), the style attribute value is the tokenized raw value after character-reference decoding in attribute mode")
 	c.Proofs()
 
 	run := &cssRunner{c: c, tieOK: true, propOK: true, bodies: map[string]struct{}{}}
@@ -349,8 +356,9 @@ func Run(c *core.Ctx) {
 	contracts(c, run.bodies)
 	runTemplCSS(c, res)
 	escapedAgain := runGenerator(c)
-	runStyleAttr(c, res, escapedAgain)
+	runStyleAttr(c, res, run.refs, escapedAgain)
 	runStyleSeq(c, res)
+	runRendered(c, res, run.refs)
 	if !c.Quick() {
 		nodeURLs(c, res)
 	}
@@ -377,6 +385,7 @@ type cssRunner struct {
 	c             *core.Ctx
 	buf           []ccase
 	kept          []result // cases handed on to the outer layers
+	refs          []result // the character-reference family, all of it (for the rendered documents)
 	keptAcc       int
 	bodies        map[string]struct{} // URL bodies the model passed to url.Parse
 	tieOK, propOK bool
@@ -499,6 +508,9 @@ func (r *cssRunner) flush() {
 			if len(r.bodies) < 400000 {
 				r.bodies[string(res[i].oracle[k])] = struct{}{}
 			}
+		}
+		if res[i].cs.fam == "references" {
+			r.refs = append(r.refs, res[i])
 		}
 		if res[i].accepted && strings.ContainsAny(res[i].cs.val, structural+"& \t\n") {
 			if r.keptAcc < 150000 {
